@@ -61,6 +61,31 @@ def shapes(v):
     return _SHAPES[v]
 
 
+_LAZY = {}
+
+
+def lazy_site(v):
+    """(group, segment, field number, two leaf component numbers) reachable only through two lazily created levels"""
+    if v in _LAZY:
+        return _LAZY[v]
+    site = None
+    from .. import structures as st
+    for c in st.children_of(tables.msg_ref(v, 'ADT_A01')):
+        if len(c) == 4 and c[3] == 'GRP' and c[1] is not None:
+            for s_ in st.children_of(c[1]):
+                if len(s_) == 4 and s_[3] == 'SEG' and s_[1] is not None and not tables.segment_anomaly(v, s_[0]) and not tables.row_anomalies(v, s_[0]):
+                    for i, fr in tables.field_rows(v, s_[0]):
+                        if i and fr.ok and fr.kind != 'leaf' and len(fr.children) >= 2 and all(x.kind == 'leaf' for x in fr.children[:2]):
+                            site = (c[0], s_[0], i, tables.comp_index(fr.children[0].name), tables.comp_index(fr.children[1].name))
+                            break
+                if site:
+                    break
+        if site:
+            break
+    _LAZY[v] = site
+    return site
+
+
 def escape_ref(text, ec):
     """reference escaping of a text without pre-existing escape sequences"""
     m = {ec['FIELD']: 'F', ec['COMPONENT']: 'S', ec['SUBCOMPONENT']: 'T', ec['REPETITION']: 'R', ec['ESCAPE']: 'E'}
@@ -90,7 +115,12 @@ def expected(v, ec):
         pid[i] = [{j1: 'F', j2: 'G'}]
     if text:
         pid[text] = [escape_ref(special, ec)]
-    return refmodel.enc_message([('MSH', msh), ('PID', pid)], ec), special
+    segs = [('MSH', msh), ('PID', pid)]
+    site = lazy_site(v)
+    if site:
+        g, s_, i, j1, j2 = site
+        segs.append((s_, {i: [{j1: 'P', j2: 'Q'}]}))
+    return refmodel.enc_message(segs, ec), special
 
 
 def build(v, ec, special):
@@ -116,6 +146,11 @@ def build(v, ec, special):
     if text:
         ST = libs()[v].BASE_DATATYPES['ST']
         getattr(m.pid, 'pid_%d' % text).value = ST(special)
+    site = lazy_site(v)
+    if site:
+        # assignment through a group and a segment that do not exist yet (two lazily created levels)
+        g, s_, i, j1, j2 = site
+        setattr(getattr(getattr(m, g.lower()), s_.lower()), '%s_%d' % (s_.lower(), i), C * (j1 - 1) + 'P' + C * (j2 - j1) + 'Q')
     return m
 
 
@@ -164,6 +199,19 @@ def check_set(res, v, t):
         res.classes['encoding-ok'] += 1
     if mllp != '\x0b' + got + '\r\x1c\r':
         res.violation('mllp|%s' % fam(v), 'to_mllp() does not frame to_er7()', point, 1)
+    site = lazy_site(v)
+    if site:
+        from hl7apy.core import Message
+        g, s_, i, j1, j2 = site
+        m2 = Message('ADT_A01', version=v, encoding_chars=dict(ec))
+        try:
+            lazy = getattr(getattr(getattr(m2, g.lower()), s_.lower()), '%s_%d' % (s_.lower(), i))
+            e = lazy.encoding_chars
+            if not same_ec(e, ec, v):
+                res.violation('readback|lazy-%s|%s|%s' % ('field', fam(v), shape), 'v%s set %r: a field reached through a group and a segment that do not exist yet '
+                              'reports encoding_chars %r' % (v, t, e), point, 2)
+        except Exception as x:
+            res.violation('readback-raises|lazy|%s' % exc_class(x), 'encoding_chars through lazily created levels raises %s: %s' % (exc_class(x), x), point, 2)
     for d in descendants(m):
         try:
             e = d.encoding_chars
@@ -298,6 +346,10 @@ def run_unit(unit, tier):
             sets = sets[::6]
         for t in sets[lo:hi]:
             check_set(res, v, t)
+            if len(t) == 6:
+                # right after a set with a truncation character: a five-role set that uses that character as an ordinary
+                # delimiter (what one message leaves behind must not reach the next one)
+                check_set(res, v, (t[5],) + tuple(t[1:5]))
         res.dims['sets v%s' % v] += len(sets[lo:hi])
     elif unit[0] == 'defects':
         check_defects(res, unit[1])
